@@ -482,11 +482,6 @@ KNOWN_BRITTLE = {
     ("ben-C06-2", "C06"): "checksum take moved into a helper returning bool: MIR counter/return pairing is per function",
     ("ben-C10-2", "C06"): "checksum take moved into a helper returning bool: MIR counter/return pairing is per function",
     ("ben-C12-3", "C03"): "read_probabilities / build_decoding_table: index loops rewritten as iter().enumerate() with continue",
-    ("ben-C13-3", "C02"): "compress_literals: nested if-let rewritten as match with guard around the header slot writes",
-    ("ben-C13-3", "C14"): "compress_literals: nested if-let rewritten as match with guard around the header slot writes",
-    ("ben-C13-3", "C13"): "encode_stream: padding width through `match misaligned() { 0 => 8, n => n }`",
-    ("ben-C16-3", "C02"): "compress_literals: nested if-let rewritten as nested match with guard",
-    ("ben-C16-3", "C14"): "compress_literals: nested if-let rewritten as nested match with guard",
 }
 
 # ---- C09: window counter accounting --------------------------------------------------------
